@@ -113,6 +113,12 @@ func (g *Gen) baseImage(maxGroups int, spare int) (*Op, map[uint32][]uint32) {
 	}
 	for gi := 1; gi <= ng; gi++ {
 		no := 1 + r.Intn(5)
+		if g.crowdedGroup && gi == 1 {
+			// a group of well over a hundred objects: its signature (one entry per object) is a large
+			// object itself — tens of kilobytes
+			no = 125 + r.Intn(90)
+			g.count("base:group-of-more-than-120-objects")
+		}
 		for k := 0; k < no; k++ {
 			di := DI{DT: pick(r, mdTypes), Fail: -1, Data: DataSpec{Lit: r.Bytes(pick(r, []int{0, 1, 3, 17, 64, 200}))}}
 			di.Opts = append(di.Opts, DIOpt{Kind: "group", N: label[gi]})
@@ -429,7 +435,9 @@ type scenGen func(g *Gen, dir string) ([]*Op, func(e *Env, i int, op *Op, obs []
 // C06: whatever was signed verifies (same handle, reload, co-sign, changes elsewhere).
 func scenC06(g *Gen, dir string) ([]*Op, func(e *Env, i int, op *Op, obs []string) *Violation) {
 	r := g.r
+	g.crowdedGroup = r.Chance(1, 25)
 	create, groups := g.baseImage(4, 8)
+	g.crowdedGroup = false
 	ops := []*Op{keysOp(), create}
 	// pre-signing history: a group is emptied, its low slot goes to another group, and the group
 	// number is used again (whatever the handle remembers about the old members must be gone)
@@ -657,7 +665,14 @@ func scenC05(g *Gen, dir string) ([]*Op, func(e *Env, i int, op *Op, obs []strin
 	total := int64(nobj) + 6
 	contentEdit := -1
 	vFinal := v
-	switch k := r.Intn(17); k {
+	switch k := r.Intn(18); k {
+	case 17:
+		// co-sign, then lose the end of the file (a copy that stopped early): the last signature
+		// object, one of two its group now has, reaches past the end of the storage
+		edit = "co-sign, then cut the file short inside the last signature object"
+		s2 := g.signKeys()
+		vFinal = trustFor(append(s.keyList(), s2.keyList()...))
+		ops = append(ops, &Op{Kind: "sign", S: s2}, &Op{Kind: "ftrunc", Lib: true, N: int64(1 + r.Intn(40)), Raw: []string{"fromend"}})
 	case 16:
 		// an unsigned object whose group field names a signed group in its low 28 bits under
 		// another flag nibble than the library writes (another writer's encoding): it decodes as a
@@ -1823,6 +1838,12 @@ func scenC16(g *Gen, dir string) ([]*Op, func(e *Env, i int, op *Op, obs []strin
 	modes[5].Groups = []uint32{1}
 	// a group and one of its objects named in the same legacy request: two tasks, each with its own signatures
 	modes[6].Legacy, modes[6].Groups, modes[6].Objects = true, []uint32{1}, []uint32{uint32(1 + r.Intn(2))}
+	// "legacy all" together with an explicitly named object or group: the named tasks are added to
+	// the whole-image expansion, they do not replace it
+	la1, la2 := base, base
+	la1.LegacyAll, la1.Objects = true, []uint32{uint32(1 + r.Intn(3))}
+	la2.LegacyAll, la2.Groups = true, []uint32{uint32(1 + r.Intn(2))}
+	modes = append(modes, la1, la2)
 	first := len(ops)
 	for _, m := range modes {
 		ops = append(ops, &Op{Kind: "verify", V: m})
@@ -1861,6 +1882,9 @@ func scenC16(g *Gen, dir string) ([]*Op, func(e *Env, i int, op *Op, obs []strin
 			e.f.WithDescriptors(func(d sif.Descriptor) bool {
 				if d.DataType() == sif.DataSignature {
 					return false
+				}
+				if m.LegacyAll && d.GroupID() != 0 {
+					need[d.ID()] = true
 				}
 				switch {
 				case len(m.Objects) > 0 || len(m.Groups) > 0:
